@@ -16,7 +16,6 @@ import (
 //
 //vf:unwind 12
 //vf:bound values event clock and incoming time symbolic below 2^62; event buffer of length 4
-//vf:nonative
 func VfC06_EventAfter() {
 	s := vfNewSerf("self", 4)
 	c, p := vfU64("eclock"), vfU64("p")
